@@ -390,6 +390,12 @@ theorem cex_reachable_pipe_s (hK : K.Laws) (parseOk : TagLine → Bool) (pm : Po
   · intro hinv; have := hinv.reg; rw [hl] at this; cases this
   · exact recover_refusedPipes K hK parseOk S.disk [] hti rfl (by simp [hdb, journalsOnDisk]) hl
 
+/-- **A position save follows every finished copy** — the code shape behind the event `savePipeInfo` of the histories above: in
+`worker.run` nothing but an error path leaves the loop between a copy that succeeded and `saveState`, also while the service
+is closing (regenerated fact; the schedule "graceful stop while a worker is inside its copy" is a hook replay in the harness,
+section conc). Pinned: a change of the shape breaks this obligation. -/
+theorem position_saved_after_every_copy : workerSavesPositionAfterEveryCopy = true := by decide
+
 /-! ## non-vacuity -/
 
 /-- a history with every kind of event that satisfies the only hypothesis of the `…_reachable` theorems -/
